@@ -85,6 +85,12 @@ chk("C15",
     "exhaustive enumeration of the recognisers' bounded input spaces (all bytes, all code points, all bounded lines) against reference regular definitions",
     "DESIGN.md section 6, C15")
 
+chk("C07",
+    "Every bounded input (general, injection and character-reference alphabets) is parsed and rendered by the real renderer with IgnoreRaw=true under the three soft-break behaviours, and with IgnoreRaw=false when the tree has no raw-HTML node; every output must be accepted by a strict scanner for the renderer's safe output language (fixed elements and attributes, proper nesting, single-space-separated quoted attributes, no raw < or \" where they could act, every & a well-formed character reference).",
+    "Bounded scope (alphabets, lengths in the evidence). The scanner is self-tested on hand-written members/non-members before every run; the HTML5 entity table is generated from Python's html.entities.",
+    "stateless explicit enumeration of all bounded inputs x 6 renderer configurations; output-language membership oracle (strict scanner)",
+    "DESIGN.md section 6, C07")
+
 # Reasons for properties not (yet) claimed.
 PENDING = {}
 
